@@ -140,3 +140,20 @@ def first_difference(a, b):
     na, _ = normal_form(a); nb, _ = normal_form(b)
     sa, sb = set(na), set(nb)
     return {'only_in_first': sorted(sa - sb)[:3], 'only_in_second': sorted(sb - sa)[:3]}
+
+def precomputed_from(text, input_names):
+    """Names among `input_names` (input fields) whose stored arrays are read by the assignments of precompute_fields, i.e.
+    inputs from which other stored quantities are derived once at construction time."""
+    lines = text.splitlines()
+    i0 = next((i for i, l in enumerate(lines) if l.startswith('cdef class ')), 0)
+    ch = _rename_slots(lines[i0:], _slot_tables(lines[i0:]))
+    inside = False; found = set()
+    for l in ch:
+        st = l.strip()
+        if st.startswith('cdef void precompute_fields('): inside = True; continue
+        if inside and re.match(r'^(cdef|def|cpdef) .*\(', st) and not st.startswith(('cdef double', 'cdef size_t')): inside = False
+        if inside and ' = ' in st and not st.startswith('#'):
+            rhs = st.split(' = ', 1)[1]
+            for n in input_names:
+                if re.search(r'fields\[%s_(a|grad_a|hess_a)@' % re.escape(n), rhs): found.add(n)
+    return sorted(found)
